@@ -191,6 +191,32 @@ def install_greeter(w, tape):
             p.closed_local = True
             w.sim.note("probe.close_from_connectionMade")
     w.greeter = greeter
+    # ... and from inside dataReceived (answer, answer and hang up, hang up)
+    # or connectionLost (open the next subchannel): request/response style
+    opens_left = [2]
+
+    def reactive(p, kind):
+        if kind == "data":
+            if getattr(p, "reacted", False) or p.closed_local or p.lost:
+                return
+            k = tape.choose(8, "react")
+            if k >= 3:
+                return
+            p.reacted = True
+            w.sim.note("probe.api_call_from_dataReceived")
+            if k in (0, 1):
+                data = b"re:%d" % len(p.data)
+                p.transport.write(data)
+                p.writes.append(data)
+            if k in (1, 2):
+                p.transport.loseConnection()
+                p.closed_local = True
+        elif kind == "lost" and opens_left[0] > 0 and \
+                tape.choose(6, "reopen") == 0:
+            opens_left[0] -= 1
+            w.sim.note("probe.connect_from_connectionLost")
+            p.side.connect(p.name, type(p))
+    w.reactive = reactive
 
 
 class L2Faults:
